@@ -1,6 +1,7 @@
 import GoomVerif.Lemmas.C06L
 import GoomVerif.Model.MethodH
 import GoomVerif.Model.MethodG
+import GoomVerif.Model.InnerFn
 /-! Lemmas about the handle-level model `Model/MethodH.lean` (core Lean only). -/
 namespace C06HL
 open Method (Str Entry Res Ty EKey symIndex getOrCreate structKey bracket objName resolveSM exportMethodName exportStructName)
@@ -558,3 +559,25 @@ theorem grun_append (syms : List Str) (entries : List Entry) : ∀ (a b : List G
     omega
 
 end C06GL
+
+namespace C06IL
+open InnerFn
+
+theorem go_fills (pre : List Ins) (hp : pre.all isFill = true) (rest : List Ins) (cur : Nat) (first : Bool) :
+    go (pre ++ rest) cur false first = go rest (cur + codeLen pre) false (first && pre.isEmpty) := by
+  induction pre generalizing cur first with
+  | nil => simp [codeLen]
+  | cons i r ih =>
+    cases i with
+    | fill n =>
+      simp only [List.all_cons, isFill, Bool.true_and] at hp
+      simp only [List.cons_append, go, Bool.false_eq_true, if_false, codeLen, List.isEmpty_cons, Bool.and_false]
+      rw [ih hp]
+      simp only [Bool.false_and]
+      congr 1
+      omega
+    | call _ => simp [isFill] at hp
+    | int3 => simp [isFill] at hp
+    | prologue => simp [isFill] at hp
+
+end C06IL
